@@ -1,0 +1,239 @@
+//go:build verif
+
+package minersc
+
+// Verification hooks (build tag `verif` only; add-only, not compiled without the tag).
+// They export unexported functions of the miner contract and read-only snapshots of its
+// stored nodes, decoded with the contract's own keys and types.
+
+import (
+	"sort"
+
+	"0chain.net/chaincore/block"
+	cstate "0chain.net/chaincore/chain/state"
+	config2 "0chain.net/core/config"
+	"github.com/0chain/common/core/currency"
+	"github.com/0chain/common/core/util"
+)
+
+// verifGovPool is a Pooler over a plain id set.
+type verifGovPool map[string]bool
+
+func (p verifGovPool) HasNode(id string) bool { return p[id] }
+
+// VerifGovReduce runs the unexported SimpleNodes.reduce on candidates given as (id, stake)
+// pairs with the given previous-set membership and returns (maxNodes, selected ids sorted).
+func VerifGovReduce(ids []string, stakes []uint64, prev map[string]bool, limit int, xPercent float64, seed int64) (int, []string) {
+	sns := NewSimpleNodes()
+	for i, id := range ids {
+		sn := &SimpleNode{}
+		sn.ID = id
+		sn.TotalStaked = currency.Coin(stakes[i])
+		sns[id] = sn
+	}
+	var pool Pooler
+	if prev != nil {
+		pool = verifGovPool(prev)
+	}
+	n := sns.reduce(limit, xPercent, seed, pool)
+	out := make([]string, 0, len(sns))
+	for id := range sns {
+		out = append(out, id)
+	}
+	sort.Strings(out)
+	return n, out
+}
+
+// VerifGovPhase is the stored view-change state of the miner contract.
+type VerifGovPhase struct {
+	PhasePresent bool
+	Phase        int
+	StartRound   int64
+	CurrentRound int64
+	Restarts     int64
+
+	AllMiners   []string
+	AllSharders []string
+	DKGMiners   []string
+	DKGT        int
+	DKGK        int
+	DKGN        int
+	Waited      []string // ids with Waited[id] == true
+	Revealed    map[string]int
+	Mpks        []string
+	MpkLens     map[string]int
+	Gsos        []string
+	Keep        []string
+
+	MBPresent  bool
+	MBNumber   int64
+	MBStart    int64
+	MBMiners   []string
+	MBSharders []string
+	MBT        int
+	MBK        int
+	MBN        int
+
+	ViewChange     int64 // GlobalNode.ViewChange
+	LastRound      int64
+	HasPrevMB      bool     // GlobalNode.PrevMagicBlock is set
+	PrevMBMiners   []string // members of GlobalNode.PrevMagicBlock (nil if unset)
+	PrevMBSharders []string
+}
+
+func verifGovSorted(m map[string]bool) []string {
+	out := make([]string, 0, len(m))
+	for k, v := range m {
+		if v {
+			out = append(out, k)
+		}
+	}
+	sort.Strings(out)
+	return out
+}
+
+// VerifGovSnapshot reads PhaseNode, the node lists, the DKG lists and the stored magic block.
+func VerifGovSnapshot(balances cstate.StateContextI) (*VerifGovPhase, error) {
+	s := &VerifGovPhase{Revealed: map[string]int{}, MpkLens: map[string]int{}}
+	pn := &PhaseNode{}
+	switch err := balances.GetTrieNode(pn.GetKey(), pn); err {
+	case nil:
+		s.PhasePresent = true
+		s.Phase, s.StartRound, s.CurrentRound, s.Restarts = int(pn.Phase), pn.StartRound, pn.CurrentRound, pn.Restarts
+	case util.ErrValueNotPresent:
+	default:
+		return nil, err
+	}
+	ids, err := getNodeIDs(balances, AllMinersKey)
+	if err != nil {
+		return nil, err
+	}
+	s.AllMiners = append([]string{}, ids...)
+	sort.Strings(s.AllMiners)
+	if ids, err = getNodeIDs(balances, AllShardersKey); err != nil {
+		return nil, err
+	}
+	s.AllSharders = append([]string{}, ids...)
+	sort.Strings(s.AllSharders)
+	if ids, err = getNodeIDs(balances, ShardersKeepKey); err != nil {
+		return nil, err
+	}
+	s.Keep = append([]string{}, ids...)
+	sort.Strings(s.Keep)
+
+	dmn, err := getDKGMinersList(balances)
+	if err != nil {
+		return nil, err
+	}
+	in := map[string]bool{}
+	for id := range dmn.SimpleNodes {
+		in[id] = true
+	}
+	s.DKGMiners = verifGovSorted(in)
+	s.DKGT, s.DKGK, s.DKGN = dmn.T, dmn.K, dmn.N
+	s.Waited = verifGovSorted(dmn.Waited)
+	for k, v := range dmn.RevealedShares {
+		s.Revealed[k] = v
+	}
+
+	mpks := block.NewMpks()
+	switch err := balances.GetTrieNode(MinersMPKKey, mpks); err {
+	case nil:
+		in = map[string]bool{}
+		for id, m := range mpks.Mpks {
+			in[id] = true
+			s.MpkLens[id] = len(m.Mpk)
+		}
+		s.Mpks = verifGovSorted(in)
+	case util.ErrValueNotPresent:
+		s.Mpks = []string{}
+	default:
+		return nil, err
+	}
+	gsos := block.NewGroupSharesOrSigns()
+	switch err := balances.GetTrieNode(GroupShareOrSignsKey, gsos); err {
+	case nil:
+		in = map[string]bool{}
+		for id := range gsos.Shares {
+			in[id] = true
+		}
+		s.Gsos = verifGovSorted(in)
+	case util.ErrValueNotPresent:
+		s.Gsos = []string{}
+	default:
+		return nil, err
+	}
+	mb := block.NewMagicBlock()
+	switch err := balances.GetTrieNode(MagicBlockKey, mb); err {
+	case nil:
+		s.MBPresent = true
+		s.MBNumber, s.MBStart = mb.MagicBlockNumber, mb.StartingRound
+		s.MBT, s.MBK, s.MBN = mb.T, mb.K, mb.N
+		if mb.Miners != nil {
+			s.MBMiners = append([]string{}, mb.Miners.Keys()...)
+			sort.Strings(s.MBMiners)
+		}
+		if mb.Sharders != nil {
+			s.MBSharders = append([]string{}, mb.Sharders.Keys()...)
+			sort.Strings(s.MBSharders)
+		}
+	case util.ErrValueNotPresent:
+	default:
+		return nil, err
+	}
+	gn, err := getGlobalNode(balances)
+	if err != nil {
+		return nil, err
+	}
+	s.ViewChange, s.LastRound, s.HasPrevMB = gn.ViewChange, gn.LastRound, gn.PrevMagicBlock != nil
+	if pmb := gn.PrevMagicBlock; pmb != nil {
+		if pmb.Miners != nil {
+			s.PrevMBMiners = append([]string{}, pmb.Miners.Keys()...)
+			sort.Strings(s.PrevMBMiners)
+		}
+		if pmb.Sharders != nil {
+			s.PrevMBSharders = append([]string{}, pmb.Sharders.Keys()...)
+			sort.Strings(s.PrevMBSharders)
+		}
+	}
+	return s, nil
+}
+
+// VerifGovSettings returns the stored GlobalNode as the contract's own string map, raw values of a
+// few numeric fields, whether it passes the contract's own validate(), and the owner id.
+func VerifGovSettings(balances cstate.StateContextI) (fields map[string]string, raw map[string]int64, valid bool, owner string, err error) {
+	gn, err := getGlobalNode(balances)
+	if err != nil {
+		return nil, nil, false, "", err
+	}
+	sm, err := gn.getConfigMap()
+	if err != nil {
+		return nil, nil, false, "", err
+	}
+	raw = map[string]int64{
+		"min_n": int64(gn.MinN), "max_n": int64(gn.MaxN), "min_s": int64(gn.MinS), "max_s": int64(gn.MaxS),
+		"max_delegates": int64(gn.MaxDelegates), "cooldown_period": gn.CooldownPeriod,
+		"num_sharders_rewarded": int64(gn.NumShardersRewarded),
+	}
+	return sm.Fields, raw, gn.validate() == nil, gn.OwnerId, nil
+}
+
+// VerifGovGlobals returns the stored GlobalSettings (chain settings) fields, the version, and the
+// names of known settings whose stored value does not parse as its declared type.
+func VerifGovGlobals(balances cstate.StateContextI) (fields map[string]string, version int64, unparsable []string, err error) {
+	gl, err := getGlobalSettings(balances)
+	if err != nil {
+		return nil, 0, nil, err
+	}
+	out := make(map[string]string, len(gl.Fields))
+	for k, v := range gl.Fields {
+		out[k] = v
+		if info, ok := config2.GlobalSettingInfo[k]; ok {
+			if _, perr := config2.StringToInterface(v, info.SettingType); perr != nil {
+				unparsable = append(unparsable, k)
+			}
+		}
+	}
+	sort.Strings(unparsable)
+	return out, gl.Version, unparsable, nil
+}
